@@ -475,6 +475,32 @@ def mutants(rng, m0, limit=4):
                                         "fields": [{"name": "a", "type": N("Int"), "args": []}]}))
         add("invalid-extension", "extension adds an enum value that exists",
             lambda m: m["exts"].append({"target": enums[0], "kind": "ENUM", "dirs": [], "values": [find_type(m, enums[0])["values"][0]]}))
+    # the SAME new member contributed by two separate extensions of one definition, or twice by one extension
+    for e in enums[:1]:
+        add("invalid-extension", "two extensions of enum %s add the same new value" % e,
+            lambda m, e=e: m["exts"].extend([{"target": e, "kind": "ENUM", "dirs": [], "values": ["ZZDUP"]},
+                                             {"target": e, "kind": "ENUM", "dirs": [], "values": ["ZZOTHER", "ZZDUP"]}]))
+        add("invalid-extension", "one extension of enum %s adds a new value twice" % e,
+            lambda m, e=e: m["exts"].append({"target": e, "kind": "ENUM", "dirs": [], "values": ["ZZDUP", "ZZDUP"]}))
+    for o in objs[:1]:
+        add("invalid-extension", "two extensions of %s add the same new field" % o,
+            lambda m, o=o: m["exts"].extend([{"target": o, "kind": "OBJECT", "dirs": [], "interfaces": [],
+                                              "fields": [{"name": "zzdup", "type": N("Int"), "args": []}]},
+                                             {"target": o, "kind": "OBJECT", "dirs": [], "interfaces": [],
+                                              "fields": [{"name": "zzdup", "type": N("Int"), "args": []}]}]))
+    for i in inputs[:1]:
+        add("invalid-extension", "two extensions of input %s add the same new field" % i,
+            lambda m, i=i: m["exts"].extend([{"target": i, "kind": "INPUT", "dirs": [],
+                                              "fields": [{"name": "zzdup", "type": N("Int"), "default": None}]},
+                                             {"target": i, "kind": "INPUT", "dirs": [],
+                                              "fields": [{"name": "zzdup", "type": N("Int"), "default": None}]}]))
+    for u in unions[:1]:
+        spare = [o for o in objs if o not in find_type(m0, u)["members"]
+                 and not any(x["target"] == u and o in x.get("members", []) for x in m0["exts"])]
+        if spare:
+            add("invalid-extension", "two extensions of union %s add the same new member" % u,
+                lambda m, u=u, o=spare[0]: m["exts"].extend([{"target": u, "kind": "UNION", "dirs": [], "members": [o]},
+                                                             {"target": u, "kind": "UNION", "dirs": [], "members": [o]}]))
     if objs:
         o = rng.choice(objs)
         add("invalid-extension", "extension adds a field %s already has" % o,
